@@ -150,13 +150,13 @@ PROPS = {
             {
                 "name": "c16",
                 "run_vo": "Model/RunSqlRedact.vo",
-                "n_quick": 400,
-                "n_thorough": 2400,
+                "n_quick": 500,
+                "n_thorough": 4200,
                 "model": True
             }
         ],
         "trusted": [
-            "Gen/SqlSchema.v is printed by `acra-vh sqlschema` (go/parser over the sqlparser sources compiled into the harness): node types, SQLNode-typed fields, the fields each walkSubtree hands to Walk, the ValType enum, sqlToBindvar's conversion table, the redact-mode flag, HandleRawSQLQuery's NotParsedStatement branch, the arguments of the partial-DDL log call. The extraction is syntactic (selectors on the receiver inside walkSubtree count as walked)",
+            "Gen/SqlSchema.v is printed by `acra-vh sqlschema` (go/parser over the sqlparser sources compiled into the harness): node types, SQLNode-typed fields, the fields each walkSubtree hands to Walk, the ValType enum, sqlToBindvar's conversion table, the redact-mode flag, HandleRawSQLQuery's NotParsedStatement branch, the arguments of the partial-DDL log call, and for the normalizer's visit functions WalkStatement/WalkSelect what each case of the type switch does with the node and returns to Walk (abstract run of the clause's statements for both answers of convertComparison; VISIT_STATEMENT, VISIT_SELECT, CMP_REPORTS_*). The extraction is syntactic (selectors on the receiver inside walkSubtree count as walked; a clause the reader does not understand is printed as VA_unknown/VR_unknown and stops the proof); the visit tables are cross-checked on every run by a probe of the compiled package (VISIT_PROBE: sentinel literals below each specially handled node kind, theorem C16_visit_probe_agrees)",
             "modelled, not verified: the SQL grammar and printer (which literal positions exist, how a tree is printed) - covered only by the marker oracle on the real parser; reflection-based AST -> generic tree conversion in the harness; sqltypes.NewValue's accept/reject answer is an input of the model (field ok of AVal)",
             "hook sqlparser/export_verif.go (VerifRedactInPlace = Redact with the ValueMask prefix); the oracle compares its printed result with HandleRawSQLQuery's redacted text on every case",
             "the firewall/proxy log model (censor_handle, proxy_debug_log, partial_ddl_log) is tied to the code by the log-capturing oracle only, not replayed case by case"
@@ -441,7 +441,7 @@ PROPS = {
         ]
     },
     "C03": {
-        "domains": [dom("c03", "Model.RunEnvelope", 4, 60)],
+        "domains": [dom("c03", "Model.RunEnvelope", 4, 25)],
         "trusted": ["'Forgery' in the theorems is an explicit witness (a successful AEAD opening of a ciphertext never produced under that key/context); Themis' actual unforgeability is outside the theorems",
                     "the stand-in's tag is a bijective-step hash: every single-bit change is detected, which the tamper enumeration relies on"],
         "assumptions": ["data-key freshness (dek not among the client's keys) as an explicit premise where needed"],
